@@ -1024,7 +1024,7 @@ func (fr *FnRun) runDefers(st *State, depth int, k func(st *State)) {
 // ---------------------------------------------------------------------------
 // loops
 
-func (fr *FnRun) loopEnter(st *State, li *loopInfo, head, prev *ssa.BasicBlock) {
+func (fr *FnRun) loopEnter(st *State, li *loopInfo, head, prev *ssa.BasicBlock) bool {
 	ex := fr.ex
 	spec := li.spec
 	if head.Parent() != fr.fn {
@@ -1060,11 +1060,26 @@ func (fr *FnRun) loopEnter(st *State, li *loopInfo, head, prev *ssa.BasicBlock) 
 	}
 	// invariant holds on entry
 	env := fr.loopEnv(st, spec, phis, entryVals)
+	unevaluable := false
 	for i, inv := range spec.Invariants {
-		t := fr.evalBool(inv.E, env)
+		t, msg := fr.tryEvalBool(inv.E, env)
+		if msg != "" {
+			// the invariant mentions a name that exists in the function but has no single value here
+			// (the loops were restructured): a failed obligation; a name that does not exist at all
+			// any more is a contract out of date (UNDECIDED)
+			if n := fr.staleName(msg); n != "" && fr.fn.Parent() == nil {
+				panic(abortf("contract out of date: loop invariant mentions %q, which is not a parameter or local of the function any more", n))
+			}
+			fr.oblige(st, "inv-init", fmt.Sprintf("L%d:%d", li.ordinal, i+1), tFalse, inv, inv.Src+"   [cannot be evaluated at the loop entry: "+msg+"]")
+			unevaluable = true
+			continue
+		}
 		for j, c := range conjuncts(t) {
 			fr.oblige(st, "inv-init", fmt.Sprintf("L%d:%d.%d", li.ordinal, i+1, j+1), c, inv, "")
 		}
+	}
+	if unevaluable {
+		return false
 	}
 	// havoc: phis and the loop's write set
 	for _, ph := range phis {
@@ -1103,6 +1118,7 @@ func (fr *FnRun) loopEnter(st *State, li *loopInfo, head, prev *ssa.BasicBlock) 
 	if spec.Decreases != nil {
 		st.vals[decKey(li)] = fr.evalTerm(spec.Decreases, env2)
 	}
+	return true
 }
 
 // rangeLenOf: for the index phi of a lowered range loop, the length value it is compared with.
